@@ -401,6 +401,7 @@ def enc_prio1(kind, H, ocap, cfg, ops, fixed=1, prefill=()):
 
 def gen_prio1_scenario(rng, tier, style=None, fault=False, stop=None, few_handlers=False):
     """stop: None | 'stop' | 'cancel' -- injected at a random position (C16)"""
+    phase_sensitive = False
     pool = [1, 2, 3, 4, 5, 7, 10, 20, 70]
     kind = rng.randrange(2)
     style = style or rng.choice(["plain", "addremove", "addremove", "unbuffered"])
@@ -498,7 +499,7 @@ def gen_prio1_scenario(rng, tier, style=None, fault=False, stop=None, few_handle
         ops.append((3, 0, 0, True))
     else:
         # finale: close every channel, graceful stop, take/release until everything is through
-        early = style != "plain" and rng.random() < 0.35
+        early = style != "plain" and rng.random() < (0.6 if style == "unbuffered" else 0.35)
         if early:
             # graceful stop requested while inputs are still open (and possibly after a drained input was removed):
             # the discipline must go on serving the open inputs until they are closed
@@ -517,6 +518,18 @@ def gen_prio1_scenario(rng, tier, style=None, fault=False, stop=None, few_handle
             for _ in range(rng.choice([1, 2, 4])):
                 ops.append((3, 0, 0, True))
                 ops.append((4, 0, 0, True))
+            if open_chans and rng.random() < 0.9:
+                # with the graceful stop pending and nothing in flight: single writes at various phases of the idle cycle, each one
+                # taken and released before the next (a writer that turns up between two looks at its input must not be lost)
+                for _ in range(rng.choice([5, 8, 12])):
+                    stl_ = rng.random() < 0.4
+                    phase_sensitive = phase_sensitive or not stl_
+                    ops.append((1, rng.choice(sorted(open_chans)), 0, stl_))
+                    nput += 1
+                    ops.append((3, 0, 0, True))
+                    ops.append((4, 0, 0, True))
+                    ops.append((3, 0, 0, True))
+                    ops.append((4, 0, 0, True))
             for ch in sorted(open_chans):
                 if rng.random() < 0.7:
                     for _ in range(rng.choice([1, 2])):
@@ -533,7 +546,7 @@ def gen_prio1_scenario(rng, tier, style=None, fault=False, stop=None, few_handle
         ops.append((3, 0, 0, True))
     enc = enc_prio1(kind, H, ocap, cfg, ops)
     meta = {"divider": ["Fair", "Rate"][kind], "H": H, "ocap": ocap, "cfg": cfg, "ops": ops, "style": style, "fault": fault,
-            "stop": stop, "nput": nput}
+            "stop": stop, "nput": nput, "phase_sensitive": phase_sensitive}
     return Scenario(enc, style + ("+fault" if fault else "") + ("+" + stop if stop else ""), meta, nontrivial=nput >= 2, version="v1")
 
 
@@ -689,6 +702,10 @@ def prio1_project(kind):
         if tr.error is not None:
             return ["error", tr.error]
         if getattr(tr, "ambiguous", False) or any(o[3] >= 2 for o in tr.ops):
+            return SKIP
+        if sc.meta.get("phase_sensitive"):
+            # writes to unbuffered inputs without settling afterwards: at which driver operation such an item comes out depends on
+            # where in its idle cycle the scheduler was; these scripts are judged by the monitors only
             return SKIP
         allbuf = all(ch < 1000 for _, ch in sc.meta["cfg"]) and all(o[1] < 1000 for o in sc.meta["ops"] if o[0] == 8)
         if sc.meta.get("fault") and not allbuf:
@@ -905,6 +922,9 @@ def prio1_progress_generate():
 
 
 def monitor_prio1_progress(sc, ir):
+    if sc.meta.get("phase_sensitive"):
+        # writes to unbuffered inputs that are not followed by a settle: "delivered after settling" cannot be judged per operation
+        return []
     if ir.verdict != "ok":
         return [("implementation verdict %s %s" % (ir.verdict, ir.raw[-300:].replace("\n", " ")), None)]
     m = sc.meta
@@ -1080,7 +1100,7 @@ def gen_simple1_scenario(rng, tier, ending=None):
     H = rng.choice(good[:6])
     linger = rng.choice([0, 0, 50, 1000])
     cfg = [(p, rng.random() < 0.8) for p in ps]
-    ending = ending or rng.choice(["graceful", "graceful", "stop", "cancel", "double-stop", "stop-during-graceful", "double-graceful"])
+    ending = ending or rng.choice(["graceful", "graceful", "stop", "cancel", "double-stop", "stop-during-graceful", "double-graceful", "fault"])
     if len(ps) >= 2 and ending in ("stop", "cancel", "double-stop") and rng.random() < 0.3:
         # fewer handlers than inputs (a zero-share configuration: delivery is not guaranteed there -- the known finding -- but the bound
         # on concurrent Handle calls, the stop behaviour and the goroutine accounting are); ended by Stop / cancel only
@@ -1115,6 +1135,11 @@ def gen_simple1_scenario(rng, tier, ending=None):
     elif ending == "double-stop":
         ops.append((11, 0, False))
         ops.append((11, 0, True))
+    elif ending == "fault":
+        # the divider breaks the sum rule from its k-th call on: the discipline ends by itself (Err() reports and closes) and
+        # nobody calls Stop / GracefulStop or cancels the context: everything it started must be gone all the same
+        for _ in range(nput + 4):
+            ops.append((4, 0, True))
     else:
         # a Handle call is in progress (and honours its context only after `linger`) when the pending graceful stop is interrupted
         ops.append((1, ps[0], True))
@@ -1130,7 +1155,8 @@ def gen_simple1_scenario(rng, tier, ending=None):
         pb += [p, 1 if b else 0]
     for code, arg, stl in ops:
         os_ += [code, arg, 1 if stl else 0]
-    enc = [10, kind, H, linger, len(pb)] + pb + [len(os_)] + os_
+    kind_enc = kind if ending != "fault" else kind + 2 + 2 * rng.choice([0, 1, 3])
+    enc = [10, kind_enc, H, linger, len(pb)] + pb + [len(os_)] + os_
     meta = {"divider": ["Fair", "Rate"][kind], "H": H, "cfg": cfg, "ops": ops, "nput": nput, "ending": ending, "linger": linger}
     return Scenario(enc, "simple-v1-" + ending, meta, nontrivial=nput >= 1, version="v1")
 
@@ -1214,7 +1240,7 @@ def monitor_simple1(kind):
                 fails.append("Handle was invoked %d times after Stop() had returned" % extra[3])
         if kind == "C19":
             if any(r[5] > 0 for r in rows):
-                fails.append("%d goroutine(s) started by the discipline remained after Stop()/GracefulStop() had returned" % max(r[5] for r in rows))
+                fails.append("%d goroutine(s) started by the discipline remained after it had terminated (Stop()/GracefulStop() returned or Err() closed)" % max(r[5] for r in rows))
             if final_g:
                 fails.append("%d goroutine(s) started by the discipline remained at the end" % final_g)
             if noterm:
